@@ -2,12 +2,13 @@
 
 ``applications.main(argv)`` runs in-process over simulated storage.  Workload: CID in {valid,
 rejected, missing, directory} x 0-3 data files from {accepted, rejected by a field, rejected by
-IsUnique, sharing keys with a sibling file, missing, directory} in every order x --until in {absent,
+IsUnique, sharing keys with a sibling file, a cell too long for the csv module, missing, directory} in every order x --until in {absent,
 -1, 0, k} x malformed argument lists.  Fault space: ENOENT / EISDIR on CID and data, chunk regime; the
 file order is a history on the one Cid object the application shares between files.  Oracle: RefCli
 built from per-file verdicts obtained through the programmatic API on a fresh Cid each."""
 import copy
 import contextlib
+import csv
 import io
 import itertools
 
@@ -17,7 +18,7 @@ ID = "C18"
 LEVEL = "exploration"
 QUICK_RUNS = 16000
 BATCH = 400
-FILE_KINDS = ["accepted", "rejected-field", "rejected-unique", "sibling", "missing", "directory", "io-error", "empty"]
+FILE_KINDS = ["accepted", "rejected-field", "rejected-unique", "sibling", "missing", "directory", "io-error", "empty", "huge-cell"]
 CID_KINDS = ["valid", "valid", "valid", "valid", "rejected", "missing", "directory"]
 RULE_TEXT = (
     "seeded scenarios: CID kind x ordered list of 0-3 data files over the six file kinds x --until x data format "
@@ -33,6 +34,9 @@ ASSUMPTIONS = [
     "a text file on a medium that fails with EIO somewhere inside the file 'cannot be read' (exit 3); the command line "
     "reads every named file to its end whatever --until says",
     "a list without data files only loads the CID: 0 if it is accepted",
+    "a delimited file with a cell the csv module cannot read (more than 131072 characters) is judged through "
+    "Reader.validate_rows(), which like the command line reads behind the validation limit (validate() stops reading there); "
+    "the csv module's process-wide limit is put back to its default before each scenario",
 ]
 COMPONENTS = {
     "real": ["cutplace.applications (main, process, CutplaceApp, argparse)", "cutplace.validio", "cutplace.interface",
@@ -40,7 +44,7 @@ COMPONENTS = {
     "stub": ["SimFS (ENOENT, EISDIR) / SimRaw", "peers"],
 }
 PROBES_REQUIRED = ["file-name-with-wildcard-characters", "limit-with-header", "cid:valid", "cid:rejected", "cid:missing", "cid:directory", "file:accepted", "file:rejected-field",
-                   "file:rejected-unique", "file:sibling", "file:missing", "file:directory", "file:io-error", "until:absent", "until:-1",
+                   "file:rejected-unique", "file:sibling", "file:missing", "file:directory", "file:io-error", "file:huge-cell", "until:absent", "until:-1",
                    "until:0", "until:k", "args-malformed", "rejected-and-unreadable-in-one-list", "exit:0", "exit:1",
                    "exit:3", "three-files"]
 BAD_ARGS = [[], ["--bogus"], ["--until", "x", "cid.csv"], ["--until", "-2", "cid.csv"], ["--until"], ["--log", "loud", "cid.csv"],
@@ -79,6 +83,9 @@ def _table(kind, number, rng):
     if kind == "io-error":
         # content that would be accepted, on a medium that fails (EIO) somewhere inside the file
         return [[str(base + 1), "x"], [str(base + 2), "yz"], [str(base + 3), "abc"], [str(base + 4), "x"]]
+    if kind == "huge-cell":
+        # a cell beyond what the csv module reads (131072 characters): the API refuses the file, so does the command line
+        return [[str(base + 1), "x"], [str(base + 2), "y" * 131073]]
     return None
 
 
@@ -93,6 +100,8 @@ def generate(seed, tier):
         kind = swarm.choice(FILE_KINDS)
         if kind == "io-error" and fmt not in ("delimited", "fixed"):
             kind = "accepted"  # the archive readers turn every failure into DataFormatError (see known finding for ODS)
+        if kind == "huge-cell" and fmt != "delimited":
+            kind = "accepted"  # the limit belongs to the csv module
         files.append({"kind": kind, "table": _table(kind, number, rng), "fail_at": rng.random()})
     until = swarm.choice(["absent", "absent", "-1", "0", "k"])
     order2 = list(range(len(files)))
@@ -102,7 +111,7 @@ def generate(seed, tier):
             "cid_defect": swarm.choice(["unknown-type", "duplicate-field", "check-before-field"]),
             "log": swarm.choice([None, None, "debug", "info", "warning", "error", "critical"]),
             # a file name is a name, whatever characters it is made of
-            "name_style": swarm.choice(["plain", "plain", "plain", "brackets", "star", "question", "blanks"])}
+            "name_style": swarm.choice(["plain", "plain", "plain", "brackets", "star", "question", "blanks", "at", "dash"])}
 
 
 def _call_main(argv):
@@ -158,6 +167,9 @@ def execute(scenario):
         return result
 
     fmt = scenario["format"]
+    # a process-wide setting of the csv module as a fresh process has it: the API verdicts are those of a caller that
+    # never used the command line
+    csv.field_size_limit(131072)
     if scenario.get("name_style", "plain") != "plain" and scenario["files"]:
         result.probe("file-name-with-wildcard-characters")
     spec = _spec(fmt, scenario.get("header", 0), scenario.get("end_check", False))
@@ -171,9 +183,11 @@ def execute(scenario):
             fs.store("cid.csv", lib.render_delimited(_cid_rows(scenario), ",", '"', "\n").encode("utf-8"))
         paths = []
         for number, entry in enumerate(scenario["files"]):
-            base = {"brackets": "data[%d]", "star": "all*%d", "question": "data?%d", "blanks": " data %d"}.get(
+            base = {"brackets": "data[%d]", "star": "all*%d", "question": "data?%d", "blanks": " data %d", "at": "@data%d"}.get(
                 scenario.get("name_style"), "data%d")
             path = tabular.data_path(spec, base % number)
+            if scenario.get("name_style") == "dash" and number == 0:
+                path = "-"  # a file in the current folder can be called that
             if scenario.get("name_style") == "blanks":
                 path += " "  # a name is a name, blanks at either end included
             paths.append(path)
@@ -195,7 +209,15 @@ def execute(scenario):
                     verdicts.append("unreadable")
                     continue
                 cid = lib.load_cid(tabular.cid_rows(spec))
-                status, value = lib.call(validio.validate, cid, path, validate_until=limit)
+                if entry["kind"] == "huge-cell":
+                    # data that cannot be parsed behind the limit: validate() stops reading at the limit, the Reader
+                    # (and with it the command line) reads on; this file's verdict is the Reader's
+                    def through_reader(cid=cid, path=path):
+                        with validio.Reader(cid, path, validate_until=limit) as reader:
+                            reader.validate_rows()
+                    status, value = lib.call(through_reader)
+                else:
+                    status, value = lib.call(validio.validate, cid, path, validate_until=limit)
                 if status == "ok":
                     verdicts.append("accepted")
                 elif isinstance(value, errors.CutplaceError):
